@@ -95,8 +95,14 @@ func checkC08(c *Ctx, r *Report) {
 	r.rule("C08.R4", "every path for a found account answers", 1)
 	r.rule("C08.R5", "the handler keeps no state between requests (no captured or package-level variable written)", 1)
 
-	if !handlerStateless(c, r, "C08.R5", "pkg/rf", "handleSUR") {
-		r.blockedBy("the handler keeps state between requests", "C08.R1", "C08.R2", "C08.R3", "C08.R4")
+	rfRules(c, r, "C08.R1", "C08.R2", "C08.R3", "C08.R4", "C08.R5")
+}
+
+// rfRules: the rules of the rating server's SUR handler, under the caller's rule names
+// (an empty name drops that rule's obligations).
+func rfRules(c *Ctx, r *Report, R1, R2, R3, R4, R5 string) {
+	if !handlerStateless(c, r, R5, "pkg/rf", "handleSUR") {
+		r.blockedBy("the handler keeps state between requests", R1, R2, R3, R4)
 		return // the model below assumes per-invocation variables
 	}
 	m := buildRfModel(c)
@@ -112,11 +118,11 @@ func checkC08(c *Ctx, r *Report) {
 				ndiv++
 				k := fmt.Sprintf("%s|division#%d", key, ndiv)
 				if kv, ok := constInt(x.Y); ok && kv != 0 {
-					r.proven("C08.R1", k, posOf(c, x), "constant non-zero divisor")
+					r.proven(R1, k, posOf(c, x), "constant non-zero divisor")
 					return
 				}
 				rel := relOnEdge(fe, fe.eval(x.Y), poly{}, nil, x.Block())
-				r.check(rel["!="] || rel[">"], "C08.R1", k, posOf(c, x), "divisor tested non-zero on a dominating edge",
+				r.check(rel["!="] || rel[">"], R1, k, posOf(c, x), "divisor tested non-zero on a dominating edge",
 					"integer division by "+fe.eval(x.Y).String()+" with no dominating non-zero test: a stored unit cost of \"0\" (or malformed text, parsed as 0) panics the rating server")
 			}
 		case *ssa.TypeAssert:
@@ -135,7 +141,7 @@ func checkC08(c *Ctx, r *Report) {
 			}
 			ndiv++
 			k := fmt.Sprintf("%s|assertion#%d", key, ndiv)
-			r.check(x.CommaOk, "C08.R1", k, posOf(c, x), "two-result type assertion on the stored value", "single-result type assertion on a value read from the database: a document whose member is not a "+x.AssertedType.String()+" panics the server")
+			r.check(x.CommaOk, R1, k, posOf(c, x), "two-result type assertion on the stored value", "single-result type assertion on a value read from the database: a document whose member is not a "+x.AssertedType.String()+" panics the server")
 		}
 	})
 
@@ -150,7 +156,7 @@ func checkC08(c *Ctx, r *Report) {
 		}
 	})
 	if ucForm == nil {
-		r.viol("C08.R2", key+"|unit-cost", c.rel(f.Pos()), "no division quota / unit cost found in the reserve branch")
+		r.viol(R2, key+"|unit-cost", c.rel(f.Pos()), "no division quota / unit cost found in the reserve branch")
 		return
 	}
 	reqAtom := func(p poly, suffix string) bool {
@@ -253,7 +259,7 @@ func checkC08(c *Ctx, r *Report) {
 			}
 		}
 		_ = reqAtom
-		r.check(bad == "", "C08.R2", k, posOf(c, st), fld+" = "+form.String(), bad)
+		r.check(bad == "", R2, k, posOf(c, st), fld+" = "+form.String(), bad)
 	})
 	r.count("price_and_units_stores", nst)
 
@@ -278,7 +284,7 @@ func checkC08(c *Ctx, r *Report) {
 			okAgree = false
 		}
 	}
-	r.check(okAgree, "C08.R3", "unit-cost-forms", c.rel(getUC.Pos()), "server and CHF both compute "+serverForm,
+	r.check(okAgree, R3, "unit-cost-forms", c.rel(getUC.Pos()), "server and CHF both compute "+serverForm,
 		"the server applies unit cost "+serverForm+" but the CHF decodes "+strings.Join(clientForms, " / ")+" from the same tariff")
 	// the tariff in the answer is the one the unit cost was computed from
 	tariffOK := false
@@ -295,7 +301,7 @@ func checkC08(c *Ctx, r *Report) {
 			}
 		}
 	}
-	r.check(tariffOK && ucFromTariff, "C08.R3", "tariff-in-answer", posOf(c, m.tariff), "the tariff the unit cost is computed from is the one placed in the answer", "the unit cost applied by the server is not computed from the tariff object sent in the answer")
+	r.check(tariffOK && ucFromTariff, R3, "tariff-in-answer", posOf(c, m.tariff), "the tariff the unit cost is computed from is the one placed in the answer", "the unit cost applied by the server is not computed from the tariff object sent in the answer")
 
 	// ---- R4 answers
 	var res0 ssa.Value
@@ -329,7 +335,7 @@ func checkC08(c *Ctx, r *Report) {
 			}
 		}
 	}
-	r.check(answered, "C08.R4", key+"|answers", posOf(c, m.writeTo), "every path of the account-found edge reaches WriteTo", why)
+	r.check(answered, R4, key+"|answers", posOf(c, m.writeTo), "every path of the account-found edge reaches WriteTo", why)
 }
 
 func firstMono(p poly) string {
